@@ -313,7 +313,10 @@ func (s *strat) fresh() retry.Strategy {
 
 // race3: `trials` times, three goroutines call Next once each, as simultaneously as possible, on a
 // fresh strategy; stops at the first interval outside [initial, max].
-func race3(s *strat, trials int) (int, int64) {
+//
+// Returns the number of trials done, whether an out-of-bounds interval was seen and which (zero is a value
+// like any other, not a sentinel), and the fewest / most grants seen in one trial of three calls.
+func race3(s *strat, trials int) (n int, found bool, bad int64, gmin, gmax int) {
 	var gen, done int32
 	var cur atomic.Value
 	var res [3]int64
@@ -343,9 +346,9 @@ func race3(s *strat, trials int) (int, int64) {
 			}
 		}(g)
 	}
-	n, bad := 0, int64(0)
+	gmin, gmax = 4, -1
 	t0 := time.Now()
-	for n < trials && bad == 0 {
+	for n < trials && !found {
 		if n&63 == 63 && time.Since(t0) > 3*time.Second {
 			break
 		}
@@ -360,15 +363,25 @@ func race3(s *strat, trials int) (int, int64) {
 				spins = 0
 			}
 		}
+		grants := 0
 		for g := 0; g < 3; g++ {
-			if oks[g] && (res[g] < s.initial || res[g] > s.max) {
-				bad = res[g]
+			if oks[g] {
+				grants++
 			}
+			if oks[g] && (res[g] < s.initial || res[g] > s.max) && !found {
+				found, bad = true, res[g]
+			}
+		}
+		if grants < gmin {
+			gmin = grants
+		}
+		if grants > gmax {
+			gmax = grants
 		}
 	}
 	atomic.StoreInt32(&stop, 1)
 	wg.Wait()
-	return n, bad
+	return
 }
 
 // wall-clock budget (ns) shared by all burst ops of one run
@@ -811,11 +824,11 @@ func runCase(ops []string, st *stats, stMu *sync.Mutex, seen map[string]struct{}
 			obs = fmt.Sprintf("rounds=%d n=%d gmin=%d gmax=%d hist=%s %s", rounds, g*k, keys[0], keys[len(keys)-1], strings.Join(hs, ","), ivs)
 		case "race3":
 			trials, _ := strconv.Atoi(w[1])
-			n, bad := race3(s, trials)
-			if bad != 0 {
-				obs = fmt.Sprintf("trials=%d bad=%d", n, bad)
+			n, found, bad, gmin, gmax := race3(s, trials)
+			if found {
+				obs = fmt.Sprintf("trials=%d bad=%d gmin=%d gmax=%d", n, bad, gmin, gmax)
 			} else {
-				obs = fmt.Sprintf("trials=%d bad=-", n)
+				obs = fmt.Sprintf("trials=%d bad=- gmin=%d gmax=%d", n, gmin, gmax)
 			}
 		case "retry":
 			out = append(out, line+" => "+runRetry(s, w, st, stMu))
